@@ -400,11 +400,13 @@ def run_single(case: dict[str, Any], stats: Stats) -> list[Violation]:
     bucket = lexical_bucket(original, case["faults"][0].get("at", case["faults"][0].get("a", 0))) if case["faults"] else "unfaulted"
     what = "ran out of memory (4 GiB)" if mem2 else f"still running after {HARD_BUDGET} interpreter steps"
     tail = text[-60:].replace("\n", "\\n")
+    end_bucket = lexical_bucket(faulted, max(0, len(faulted) - 1)) if faulted else "empty"
+    sig = f"{entry}:ends_in_{end_bucket}" + (":has_nul" if b"\0" in faulted else "") + (":non_ascii" if any(b > 127 for b in faulted) else "")
     return [
         Violation(
             "non_termination",
-            f"{entry}",
-            f"{wl['name']} workload, fault {case['faults']} landing in {bucket}: the assembler {what} (fault-free run: {e0} steps; largest explicit loop count seen: {o2.get('max_loop_span', 0)}); faulted text ends with ...{tail!r}",
+            sig,
+            f"{wl['name']} workload, fault {case['faults']} landing in {bucket}: the assembler {what} (fault-free run: {e0} steps; largest explicit loop count seen: {o2.get('max_loop_span', 0)}; innermost frames when the budget ran out: {o2.get('stuck_in')}); faulted text ends with ...{tail!r}",
             case,
             {"steps": o2["steps"], "faulted_len": len(faulted)},
         )
